@@ -703,7 +703,10 @@ def param2argparse_param(param, word_wrap=True, emit_default_doc=True):
                         (
                             keyword(
                                 arg="help",
-                                value=set_value((fill if word_wrap else identity)(doc)),
+                                value=set_value(
+                                    (fill if word_wrap else identity)(doc),
+                                    strip_quotes=False,
+                                ),
                                 identifier=None,
                             )
                             if doc
@@ -935,7 +938,7 @@ def get_at_root(node, types):
     return list(filter(rpartial(isinstance, types), node.body))
 
 
-def set_value(value, kind=None):
+def set_value(value, kind=None, strip_quotes=True):
     """
     Creates a `Constant` on Python >= 3.8 otherwise more specific AST type
 
@@ -945,11 +948,15 @@ def set_value(value, kind=None):
     :param kind: AST node
     :type kind: ```Optional[Any]```
 
+    :param strip_quotes: Whether a `value` like `"'foo'"` is a quoted literal; prose is not, e.g., `'a' or 'b'`
+    :type strip_quotes: ```bool```
+
     :return: Probably a string, but could be any constant value
     :rtype: ```Union[Constant, Num, Str, NameConstant]```
     """
     if (
-        value is not None
+        strip_quotes
+        and value is not None
         and isinstance(value, str)
         and len(value) > 2
         and value[0] + value[-1] in frozenset(('""', "''"))
